@@ -1,6 +1,7 @@
 package scen
 
 import (
+	"github.com/vipnode/vipnode/v2/request"
 	"net"
 	"net/url"
 
@@ -787,6 +788,16 @@ func (d *Director) Stale(a *Actor, tooOld bool) {
 	}
 	endpoint := signedNodeEndpoints[d.choose("stale.endpoint", 3)]
 	args := a.Signed(endpoint, nonce, d.legitParams(endpoint, a))
+	if alt := respell(a.ID, d.choose("stale.respell", 6)); alt != a.ID && class == "replayed nonce" {
+		// the same identity written differently (the signature check reads node ids as hex numbers: upper case
+		// and a 0x prefix name the same key), signed by its key for that spelling
+		var err error
+		args, err = request.NodeRequest{Method: endpoint, NodeID: alt, Nonce: nonce, ExtraArgs: []interface{}{d.legitParams(endpoint, a)}}.SignedArgs(a.Key)
+		if err != nil {
+			panic(err)
+		}
+		class = "replayed nonce under another spelling of the node id"
+	}
 	if old := d.lastOld[a.ID]; old != nil && d.choose("stale.oldformat", 2) == 1 {
 		// a captured keep-alive in the deprecated signature format, replayed verbatim
 		endpoint, args, class = "vipnode_update", old, "replayed old-format keep-alive"
